@@ -312,6 +312,17 @@ func (in *interp) loop(fr *frame, l *Loop) ctl {
 			}
 			in.res.BackEdges++
 		}
+	case KForDown:
+		for fr.vars[l.K.Name].(int64) > 0 {
+			in.tick()
+			c := in.block(fr, l.Body)
+			if exit, p := loopCtl(c); exit {
+				return p
+			}
+			fr.vars[l.K.Name] = fr.vars[l.K.Name].(int64) - 1
+			in.syncStatic(fr, l.K.Name)
+			in.res.BackEdges++
+		}
 	case KForeach:
 		items := l.Over
 		if l.OverV != "" {
